@@ -49,48 +49,47 @@ Symmetric(A) == \A i \in 1..Rows(A) : \A j \in 1..Rows(A) : A[i][j] = A[j][i]
 
 Det2(a, b, c, d) == RSub(RMul(a, d), RMul(b, c))
 
-Det(A) ==
-  CASE Rows(A) = 0 -> One
-    [] Rows(A) = 1 -> A[1][1]
-    [] Rows(A) = 2 -> Det2(A[1][1], A[1][2], A[2][1], A[2][2])
-    [] Rows(A) = 3 ->
-         RAdd(RSub(RMul(A[1][1], Det2(A[2][2], A[2][3], A[3][2], A[3][3])),
-                   RMul(A[1][2], Det2(A[2][1], A[2][3], A[3][1], A[3][3]))),
-              RMul(A[1][3], Det2(A[2][1], A[2][2], A[3][1], A[3][2])))
+\* sub-matrix of A on the given row / column index sequences
+SubMat(A, rs, cs) == MkMat(Len(rs), Len(cs), LAMBDA i, j : A[rs[i]][cs[j]])
+\* 1..n without k, as a sequence
+Without(n, k) == [i \in 1..(n - 1) |-> IF i < k THEN i ELSE i + 1]
 
-\* minor of a 3x3: delete row i, column j
-Sub3(A, i, j) ==
-  LET rs == IF i = 1 THEN <<2, 3>> ELSE IF i = 2 THEN <<1, 3>> ELSE <<1, 2>>
-      cs == IF j = 1 THEN <<2, 3>> ELSE IF j = 2 THEN <<1, 3>> ELSE <<1, 2>>
-  IN Det2(A[rs[1]][cs[1]], A[rs[1]][cs[2]], A[rs[2]][cs[1]], A[rs[2]][cs[2]])
+\* determinant by Laplace expansion along the first row (sizes 0..4 are used)
+RECURSIVE Det(_)
+Det(A) ==
+  LET n == Rows(A) IN
+  CASE n = 0 -> One
+    [] n = 1 -> A[1][1]
+    [] n = 2 -> Det2(A[1][1], A[1][2], A[2][1], A[2][2])
+    [] OTHER ->
+         LET term(j) == LET m == Det(SubMat(A, Without(n, 1), Without(n, j)))
+                            t == RMul(A[1][j], m)
+                        IN IF j % 2 = 1 THEN t ELSE RNeg(t)
+         IN SumTo([j \in 1..n |-> term(j)], n)
+
+\* minor: delete row i, column j
+Minor(A, i, j) == Det(SubMat(A, Without(Rows(A), i), Without(Rows(A), j)))
+Sub3(A, i, j) == Minor(A, i, j)
 
 \* inverse by adjugate; Undef entries if singular
 MInv(A) ==
   LET d == TLCEval(Det(A)) n == Rows(A) IN
-  CASE n = 1 -> << <<RDiv(One, d)>> >>
-    [] n = 2 -> << <<RDiv(A[2][2], d), RDiv(RNeg(A[1][2]), d)>>,
-                  <<RDiv(RNeg(A[2][1]), d), RDiv(A[1][1], d)>> >>
-    [] n = 3 -> \* (adj A)[i][j] = (-1)^(i+j) * minor(j, i)
-                MkMat(3, 3, LAMBDA i, j :
-                   RDiv(IF (i + j) % 2 = 0 THEN Sub3(A, j, i) ELSE RNeg(Sub3(A, j, i)), d))
+  IF n = 1 THEN << <<RDiv(One, d)>> >>
+  ELSE \* (adj A)[i][j] = (-1)^(i+j) * minor(j, i)
+       MkMat(n, n, LAMBDA i, j : RDiv(IF (i + j) % 2 = 0 THEN Minor(A, j, i) ELSE RNeg(Minor(A, j, i)), d))
+
+\* increasing index sequences = principal sub-matrices
+RECURSIVE IncSeqs(_, _)
+IncSeqs(n, k) == IF k = 0 THEN {<<>>}
+                 ELSE {Append(s, m) : s \in IncSeqs(n, k - 1), m \in 1..n} \cap
+                      {s \in UNION {[1..k -> 1..n]} : \A a \in 1..(k - 1) : s[a] < s[a + 1]}
+PrincipalSets(n) == UNION {IncSeqs(n, k) : k \in 1..n}
 
 \* positive semi-definite (symmetric A): all principal minors >= 0
-PSD(A) ==
-  LET n == Rows(A) nn(q) == RSign(q) >= 0 IN
-  CASE n = 0 -> TRUE
-    [] n = 1 -> nn(A[1][1])
-    [] n = 2 -> nn(A[1][1]) /\ nn(A[2][2]) /\ nn(Det(A))
-    [] n = 3 -> /\ nn(A[1][1]) /\ nn(A[2][2]) /\ nn(A[3][3])
-                /\ nn(Sub3(A, 1, 1)) /\ nn(Sub3(A, 2, 2)) /\ nn(Sub3(A, 3, 3))
-                /\ nn(Det(A))
+PSD(A) == \A s \in PrincipalSets(Rows(A)) : RSign(Det(SubMat(A, s, s))) >= 0
 
 \* positive definite: leading principal minors > 0
-PD(A) ==
-  LET n == Rows(A) pp(q) == RSign(q) > 0 IN
-  CASE n = 0 -> TRUE
-    [] n = 1 -> pp(A[1][1])
-    [] n = 2 -> pp(A[1][1]) /\ pp(Det(A))
-    [] n = 3 -> pp(A[1][1]) /\ pp(Sub3(A, 3, 3)) /\ pp(Det(A))
+PD(A) == \A k \in 1..Rows(A) : RSign(Det(SubMat(A, [i \in 1..k |-> i], [i \in 1..k |-> i]))) > 0
 
 \* v' M v
 Quad(v, M) == Dot(v, MatVec(M, v))
